@@ -37,6 +37,10 @@ HANDLE_GHOST = '''
     /// ghost: handles are plain wrappers, equal iff their index is equal
     proof fn idx_injective(a: Self, b: Self)
         ensures a.idx() == b.idx() <==> a == b;
+    /// ghost: the executable `==` on handles is structural equality
+    proof fn eq_is_structural()
+        ensures <Self as vstd::std_specs::cmp::PartialEqSpec>::obeys_eq_spec(),
+                forall|a: Self, b: Self| #[trigger] a.eq_spec(&b) == (a == b);
 '''
 
 
@@ -44,9 +48,10 @@ def handle_trait(u, props, with_reindex=False, reindex_fn=None):
     """trait Handle from src/types.rs with the ghost members every unit shares.
     Hash/DataSize/Debug supertraits are dropped (R-supertrait)."""
     fns = [
+        # Handle::new truncates (`as u32`): the contract is total and says so, callers that need
+        # `idx() == intid` must establish `intid <= hmax()` themselves
         Fn('new', props=props, ret='r',
-           requires=[('in_range', 'intid <= Self::hmax()')],
-           ensures=[('idx', 'r.idx() == intid')]),
+           ensures=[('idx', 'intid <= Self::hmax() ==> r.idx() == intid'), ('max', 'r.idx() <= Self::hmax()')]),
         Fn('as_usize', props=props, ret='r',
            ensures=[('idx', 'r == self.idx()'), ('max', 'r <= Self::hmax()')]),
     ]
@@ -58,13 +63,29 @@ def handle_trait(u, props, with_reindex=False, reindex_fn=None):
 
 def handle_impl(u, name, props):
     file, rep = HANDLE_TYPES[name]
-    u.item(file, 'struct', name, keep_derives=['Clone', 'Copy', 'PartialEq', 'Eq', 'PartialOrd', 'Ord'],
-           extra_derive=None)
+    rw = [] if name == 'TextSelectionHandle' else [('R-vis', r'\(\s*u(32|16)\)', r'(pub u\1)')]
+    u.item(file, 'struct', name, keep_derives=['Clone', 'Copy', 'PartialOrd', 'Ord'],
+           extra_derive=None, rewrites=rw)
+    u.trusted_text(f'''
+/// R-derive-eq: `#[derive(PartialEq, Eq)]` on {name}, written out; trusted to be structural equality.
+impl PartialEq for {name} {{
+    #[verifier::external_body]
+    fn eq(&self, other: &Self) -> (r: bool)
+        ensures r == (*self == *other),
+    {{ self.0 == other.0 }}
+}}
+impl Eq for {name} {{}}
+impl vstd::std_specs::cmp::PartialEqSpecImpl for {name} {{
+    open spec fn obeys_eq_spec() -> bool {{ true }}
+    open spec fn eq_spec(&self, other: &Self) -> bool {{ *self == *other }}
+}}
+''', f'external_body: derived PartialEq on {name} is structural equality (R-derive-eq)')
     ghost = f'''
     open spec fn idx(&self) -> usize {{ self.0 as usize }}
     open spec fn hmax() -> usize {{ {rep}::MAX as usize }}
     proof fn hmax_bound() {{}}
     proof fn idx_injective(a: Self, b: Self) {{}}
+    proof fn eq_is_structural() {{}}
 '''
     u.impl(file, f'impl Handle for {name}', [
         Fn('new', props=props, ret='r'),
